@@ -63,7 +63,8 @@ FAIL_CLASSES = ['missing-query', 'corrupt-query', 'non-hdf5-query',
                 'missing-markers', 'malformed-markers',
                 'marker-unknown-to-reference', 'no-usable-root',
                 'negative-raw', 'wrong-normalization', 'corrupt-stats',
-                'worker-before', 'worker-mid', 'worker-after']
+                'worker-before', 'worker-mid', 'worker-after',
+                'worker-before-slow-siblings', 'worker-mid-slow-siblings']
 
 
 def gen_cases(tier, seed):
@@ -322,6 +323,13 @@ def run_fail(spec, work, ctx):
                 'fault': {'worker': int(rng.integers(0, 3)),
                           'mode': str(rng.choice(['kill', 'exit', 'raise'])),
                           'point': point, 'mid_after': 1}}
+        if fc.endswith('slow-siblings'):
+            # the surviving workers are held right before they write their
+            # chunk of results, i.e. until after the parent has raised and
+            # cleaned up
+            plan['delay_points'] = [[
+                'cell_type_mapper.type_assignment.election', 'save_results',
+                float(rng.choice([0.4, 0.8])), 'non-victim']]
     cfg = pw.mapping_config(outd, q, stats, lookup, chunk_size=3,
                             n_processors=4, **ta)
     cfg['tmp_dir'] = str(scratch)
